@@ -36,7 +36,7 @@ def prepare(chk, appends=None, rustflags=""):
     """returns KaniCrate for the K-unit scratch copy.  appends: {leaf file: text appended to the copy}"""
     d = core.scratch("kunit")
     crate = os.path.join(d, "unit")
-    shutil.copytree(os.path.join(core.VERIF, "kani", "unit"), crate, ignore=shutil.ignore_patterns("target", "real"))
+    shutil.copytree(os.path.join(core.VERIF, "kani", "unit"), crate, ignore=shutil.ignore_patterns("target", "real", "appends"))
     real = os.path.join(crate, "src", "real")
     os.makedirs(real, exist_ok=True)
     hashes = {}
@@ -46,7 +46,11 @@ def prepare(chk, appends=None, rustflags=""):
             continue
         shutil.copy2(src, os.path.join(real, leaf))
         hashes[rel] = core.sha(src)
-    for leaf, text in (appends or {}).items():
+    app_dir = os.path.join(core.VERIF, "kani", "unit", "appends")
+    appends = dict(appends or {})
+    for fn in sorted(os.listdir(app_dir)) if os.path.isdir(app_dir) else []:
+        appends[fn] = appends.get(fn, "") + open(os.path.join(app_dir, fn)).read()
+    for leaf, text in appends.items():
         with open(os.path.join(real, leaf), "a") as f:
             f.write("\n" + text + "\n")
     # derived copy of xformatter.rs without its regex-dependent constructor (text cut, see C19)
